@@ -103,9 +103,10 @@ def ompTaskPinned (collapseSet : Bool) (v : TaskState → Bool) : Prog TaskState
             (.check (fun _ => !collapseSet)
               (.prim (fun s => { s with wrapped := true }) .done)))) .done))
 
-/-- fixed: `validate` refuses a `collapse` option. -/
+/-- fixed: `validate` refuses a `collapse` option (commit ef452d1) and also validates the loop in the form it
+    has after the inlining, on a copy (`fixes/C26-late-refusals-after-inlining-and-mask.patch`). -/
 def ompTaskFixed (collapseSet : Bool) (v : TaskState → Bool) : Prog TaskState :=
-  ompTaskPinned collapseSet (fun s => v s && !collapseSet)
+  ompTaskPinned collapseSet (fun s => v s && v { s with inlined := true } && !collapseSet)
 
 /-! ## AlgTrans / LFRicAlgTrans: one nested `RaisePSyIR2…AlgTrans.apply` per `call invoke(...)` -/
 
@@ -172,6 +173,26 @@ def reductionFixed (increment : Bool) (v a2l : RedState → Bool) : Prog RedStat
           (.prim (redDeclareTmp increment)
             (.call (fun _ => a2lApply a2l) (.prim redFinish .done)))))
       .done)
+
+/-! ### ArrayReductionBaseTrans with a `mask=` argument -/
+
+structure MaskState where
+  tree : Nat             -- 0 original statement, 1 array assignment built, 3 final form
+  maskExpanded : Bool    -- the `mask` argument of the ORIGINAL intrinsic node reads `m(:)` instead of `m`
+  deriving DecidableEq, Repr
+
+/-- pinned: `Reference2ArrayRangeTrans` is applied to the mask inside the original node; the handler only puts
+    the original statement back. -/
+def reductionMaskPinned (hasMask : Bool) (v a2l : MaskState → Bool) : Prog MaskState :=
+  validateThen v
+    (.call (fun entry =>
+        .prim (fun s => if hasMask then { s with maskExpanded := true } else s)
+          (.prim (fun s => { s with tree := 1 })
+            (.tryCall (fun _ => .check a2l .done) (fun _ now => { now with tree := entry.tree })
+              (.prim (fun s => { s with tree := 3 }) .done)))) .done)
+
+/-- fixed (`fixes/C26-late-refusals-after-inlining-and-mask.patch`): the mask is expanded on a copy. -/
+def reductionMaskFixed (v a2l : MaskState → Bool) : Prog MaskState := reductionMaskPinned false v a2l
 
 /-! ## ArrayAssignment2LoopsTrans: `options["verbose"]` makes `validate` write a comment -/
 
